@@ -4,6 +4,6 @@ Sh(k, c) == [io |-> k, closes |-> c]
 \* quick: two streams in all combinations of {read once, read twice} x {close once, twice};
 \* three streams: one is closed twice without being read, two are read and closed
 QuickShapes == {<<Sh(a, c), Sh(b, d)>> : a \in {0, 1}, b \in {1, 2}, c \in {1, 2}, d \in {1, 2}}
-               \cup {<<Sh(0, 2), Sh(1, 1), Sh(1, 1)>>, <<Sh(0, 2), Sh(0, 1), Sh(1, 2)>>}
-ThoroughShapes == QuickShapes \cup {<<Sh(0, 2), Sh(2, 1), Sh(2, 1)>>, <<Sh(0, 2), Sh(0, 2), Sh(2, 1)>>, <<Sh(1, 1), Sh(0, 2), Sh(2, 1)>>}
+               \cup {<<Sh(0, 2), Sh(1, 1), Sh(1, 1)>>}
+ThoroughShapes == QuickShapes \cup {<<Sh(0, 2), Sh(0, 1), Sh(1, 2)>>, <<Sh(0, 2), Sh(0, 2), Sh(2, 1)>>, <<Sh(1, 1), Sh(0, 2), Sh(2, 1)>>}
 =============================================================================
